@@ -86,6 +86,53 @@ CLAIMS.update({
              "reused buffer, chars/rev/Display and random slices are compared with the model and with the content on every generated string.",
         note="Trusted: Lean kernel, axioms, harness+driver. The unicode-segmentation crate's cluster boundaries are an input; AsciiSeg is a hypothesis exercised exhaustively for short ASCII strings."),
 })
+
+NU_NOTE = "Trusted: Lean kernel, axioms propext/Classical.choice/Quot.sound, harness (gates on the cfg-gated yield points) + driver. Modelled, not verified: the control flow of tick/tick_inner/restart/Worker::run (tied by replaying seeded histories on a real Nucleo, every observable compared); a background run is one model transition parameterised by its observations; parking_lot's lock, Arc counts and rayon are abstracted (lock outcomes and run effects are oracle inputs of the theorems); scores are inputs (C01-C05, C15)."
+CLAIMS.update({
+    "C06": dict(
+        technique="Lean 4 theorems (snapshot guard, repaired in-flight removal, ordering) over the protocol model + replay of seeded histories with paused writers and per-snapshot oracle",
+        text="Partial proof. Theorems: the snapshot is replaced only by the result of a finished, un-cancelled run while the matcher is Fresh, and always together with that run's "
+             "stream handle and processed-item count; the in-flight indices are processed in ascending order whatever order the pool threads report them in (repair of F11, with the "
+             "[5,3] regression decided in the model); placeholder entries sort behind real matches of equal score. The run's contract (matches = exactly the matching processed "
+             "items, once each, scored, ordered) is evaluated on every real snapshot of every generated history (writers paused between reservation and publication, 1-3 pool "
+             "threads, 1-2 columns), and model = implementation on all of them.",
+        note=NU_NOTE),
+    "C07": dict(
+        technique="Lean 4 theorems about the append-shortcut decision rule + end-to-end comparison of every quiescent history with a fresh Nucleo",
+        text="Partial proof. Theorems: the Update shortcut is taken only for a truthful append onto a column not already due for a rescore whose last atom is positive, not "
+             "postfix/exact, does not end in a backslash and (unless fuzzy) not in an escaped dollar (repair of F9), with decided witnesses that each excluded class is not a "
+             "narrowing; a cancelling tick always hands the worker the current pattern. Convergence itself is checked end to end: every generated history is driven to quiescence "
+             "and its snapshot compared with a fresh Nucleo fed the same items and final pattern (oracle independent of the model).",
+        note=NU_NOTE),
+    "C12": dict(
+        technique="Lean 4 theorems over the protocol model (restart, guard lemma for runs of the old stream) for every lock outcome and run effect + history replay",
+        text="Theorems (every lock outcome, counter value and background-run effect): restart(true) empties the snapshot and points it at the new stream immediately; "
+             "restart(false) leaves it untouched; the new stream is referenced by no old injector, worker or snapshot handle; while the matcher is Cleared a finishing run of the old "
+             "stream is never copied into the snapshot (guard lemma) and the next run works on the new stream; a snapshot update always takes the worker's stream handle together with "
+             "its matches. Old injectors keep working without any effect: checked on the real code (oldpush/oldextend events), where every match's item must belong to the snapshot's stream.",
+        note=NU_NOTE),
+    "C13": dict(
+        technique="Lean 4: decided lost-wake-up witness + theorem that a tick reporting 'running' leaves the flag armed; replay with the run parked at run.end",
+        text="The property is false for the code (finding K2, not repaired): C13_lost_wakeup_witness decides the schedule in the model and the harness replays it on the real Nucleo "
+             "by parking the run at the run.end yield point (tick times out, re-arms, reports running; the run ends with zero notify calls) - reported as KNOWN-FINDING. Proved: "
+             "whenever tick returns running, should_notify is armed when it returns, and a run that reads an armed flag notifies. Every notify call of every history is predicted by "
+             "the model (pushes, extends and runs), so any other lost or spurious notification is a violation.",
+        note=NU_NOTE),
+    "C19": dict(
+        technique="Lean 4 theorems over the protocol model for every lock outcome and run effect + history replay with before/after snapshots",
+        text="Theorem: changed = false implies the snapshot (matches, item count, pattern, stream) is identical to the one before the call, for every lock outcome, counter value and "
+             "background-run effect. Partial for 'running = false': it is only reported by a tick_inner that held the worker lock, spawned nothing and read a counter not exceeding the "
+             "worker's processed count, and if an un-cancelled run had finished the snapshot is exactly that run's result (count, pattern, stream); the remaining step (the snapshot "
+             "already equals the worker's result when no run finished since the last look) is evaluated as an oracle clause on every tick of every history.",
+        note=NU_NOTE),
+    "C20": dict(
+        technique="Lean 4 invariant over all histories of injector/clone/drop/restart/reparse/tick with arbitrary tick oracles + history replay",
+        text="Theorem C20_history: for every history of injector(), clone, drop, restart(true|false), reparse and tick - every lock outcome, counter value and background-run effect "
+             "that leaves the worker's stream handle alone (proved for Worker::run) - active_injectors equals the number of live injector handles of the current stream; injectors of "
+             "older streams are never counted. Tied to the code by replaying seeded histories (including writer threads holding injector clones) and comparing after every event.",
+        note=NU_NOTE),
+})
+
 MATCHER_IDS = {"C01", "C02", "C03", "C04", "C05", "C10"}
 
 
@@ -128,7 +175,7 @@ def main():
     print("MANIFEST.json written:", len(checks), "checks,", len(m["not_applicable"]), "not applicable")
 
 
-HOOK_COMMITS = ["83be2c1"]
+HOOK_COMMITS = ["83be2c1", "70f7560", "1c72289", "55bd267"]
 
 if __name__ == "__main__":
     main()
